@@ -100,6 +100,40 @@ def rule_next(ck):
         tests = [n for n in cfg.nodes if n.kind == 'test' and 'self.n_cat' in u(n.ast.test) and cfg.dominates(n, r)]
         asserts = [n for n in cfg.nodes if isinstance(n.ast, ast.Assert) and 'self.n_cat' in u(n.ast.test) and cfg.dominates(n, r)]
         (o.ok() if ndefs or tests or asserts else o.fail('the number of catalogs is not established when this pass ends'))
+    # D2.count: where the number of catalogs is read off the cursor, the cursor still holds the count: no reset of _idx - in __next__
+    # itself or inside a method it calls on the way - lies between the last increment and that assignment
+    def writes_idx(g, depth=0):
+        for x in all_nodes(g):
+            if isinstance(x, ast.Attribute) and isinstance(x.ctx, ast.Store) and u(x) == 'self._idx':
+                return True
+            if depth < 2 and isinstance(x, ast.Call) and isinstance(x.func, ast.Attribute) and isinstance(x.func.value, ast.Name) and x.func.value.id == 'self' \
+                    and f.cls is not None:
+                m_ = f.cls.find_method(x.func.attr)
+                if m_ is not None and m_ is not g and writes_idx(m_, depth + 1):
+                    return True
+        return False
+    incs = [d for d in idx_defs if isinstance(d.ast, ast.AugAssign)]
+    resets = [d for d in idx_defs if not isinstance(d.ast, ast.AugAssign)]
+    for n in cfg.nodes:
+        a = n.ast
+        if n.kind in ('test', 'for', 'while') or a is None or isinstance(a, (ast.FunctionDef, ast.ClassDef)):
+            continue
+        for x in ast.walk(a) if isinstance(a, (ast.Expr, ast.Assign, ast.AugAssign, ast.Return)) else []:
+            if isinstance(x, ast.Call) and isinstance(x.func, ast.Attribute) and isinstance(x.func.value, ast.Name) and x.func.value.id == 'self' and f.cls is not None:
+                m_ = f.cls.find_method(x.func.attr)
+                if m_ is not None and m_ is not f and writes_idx(m_):
+                    resets.append(n)
+    for d in cfg.nodes:
+        if isinstance(d.ast, ast.Assign) and 'self.n_cat' in d.defs and 'self._idx' in u(d.ast.value):
+            o = ck.ob('C13-D2.count', f, d.ast, d.ast)
+            def reaches(w):
+                # a plain store of a constant raises nothing: leave the reset through its normal successor only
+                first = [s_ for s_, lab in w.succ if not (lab == 'exc' and isinstance(w.ast, ast.Assign) and isinstance(w.ast.value, ast.Constant))]
+                return any(s_ is d or (s_ not in incs and cfg.can_reach(s_, d, avoid=incs)) for s_ in first)
+            bad = [w for w in resets if w is not d and reaches(w)]
+            (o.fail('`%s` (L%d) rewinds the cursor before `%s` reads it: the forecast then reports 0 catalogs after the pass and the expected '
+                    'rates are divided by 0' % (u(bad[0].ast)[:60], bad[0].lineno, u(d.ast))) if bad else
+             o.ok('the cursor still counts the catalogs of the pass when it is read'))
     # D3 nullness of n_cat inside __next__
     ck.clause('D3')
     init = P.func(F + '__init__')
@@ -441,4 +475,13 @@ def rule_tolerance_shared(ck):
     c02.rule_tolerance_flow(ck)
 
 
-RULES = [rule_writers, rule_init, rule_next, rule_getters, rule_complete_passes, rule_consumers, rule_tolerance_shared]
+def rule_rates_view(ck):
+    """the cached expected rates are a gridded forecast: what a caller reads from them (`.data`, the marginals) is a fresh array, so
+    nothing a consumer does to its copy can change what the next request returns (shared C11-D1 scaling / view, C11-D4 marginals)"""
+    from . import c11
+    ck.clause('D6 (shared C11-D1/D4: the cached rates hand out fresh arrays)')
+    c11.rule_scaling(ck)
+    c11.rule_axes(ck)
+
+
+RULES = [rule_writers, rule_init, rule_next, rule_getters, rule_complete_passes, rule_consumers, rule_tolerance_shared, rule_rates_view]
